@@ -131,9 +131,10 @@ CHECKS["C02"] = {
     "units": [
         {"pkg": _SS, "run": "^TestVerif_C02_", Q: {"timeout": 600}, T: {"timeout": 3400, "shards": 16}},
         {"pkg": _SS, "run": "^TestVerifCtl_C02_", "inst": ["pkg/secretstore/secret_store_messages.go"], Q: {"timeout": 600}, T: {"timeout": 3400, "shards": 8}},
+        {"pkg": ".", "run": "^TestVerif_C02_", "inst": ["store_message.go", "internal/queue/simple.go", "internal/queue/priority.go"], Q: {"timeout": 900}, T: {"timeout": 3400, "shards": 8}},
     ],
     "mandatory_labels": {"all": ["tree/edge-attempt", "tree/duplicate", "tree/out-of-order-success", "random/edge-attempt", "random/duplicate",
-                                 "random/out-of-order-success", "random/re-registration", "random/two-senders", "random/push-before-store", "concurrent/dfs-schedules", "concurrent/contended-lock"]},
+                                 "random/out-of-order-success", "random/re-registration", "random/two-senders", "random/push-before-store", "concurrent/dfs-schedules", "concurrent/contended-lock", "pipeline/arrival-beyond-key-window", "pipeline/undecryptable-below-decryptable"]},
 }
 
 CHECKS["C09"] = {
@@ -402,6 +403,7 @@ _ADDED3 = {"C07": "Service layer: generated sequences in which enqueue / discard
 CHECKS["C07"]["level_text"] += ". " + _ADDED3["C07"]
 _ADDED2 = {"C02": "Concurrent half: controlled schedules (DFS + rapid) of overlapping opens (with duplicates) and registration / re-delivery on an instrumented secret store; afterwards everything sealed after the registered counter opens in order."}
 CHECKS["C02"]["level_text"] += ". " + _ADDED2["C02"]
+CHECKS["C02"]["level_text"] += " Pipeline layer: the message store (which does the retrying) with receiver windows 1-3, entries beyond the window / sealed before the registered counter / duplicated arriving in generated orders, least-fixed-point oracle of the window rule."
 CHECKS["C02"]["technique"] += "; generated-schedule exploration for overlapping arrivals"
 CHECKS["C05"]["technique"] += "; generated-schedule exploration for overlapping announcements"
 CHECKS["C11"]["technique"] += "; generated-schedule exploration for overlapping first uses"
